@@ -930,9 +930,20 @@ class FloatOps:
             if isinstance(a, int) and isinstance(b, int):
                 q = abs(a) // abs(b)
                 return q if (a >= 0) == (b > 0) else -q
-            return a / b
+            try:
+                return a / b
+            except ZeroDivisionError:
+                # IEEE semantics, as the compiled program has them
+                if a != a or a == 0:
+                    return float("nan")
+                return math.copysign(float("inf"), a) * math.copysign(1.0, b)
         if op == "**":
-            return a ** b
+            try:
+                return a ** b
+            except OverflowError:
+                return float("inf")
+            except ZeroDivisionError:
+                return float("inf")
         if op in ("==", ".eq."):
             return a == b
         if op in ("/=", ".ne."):
@@ -1088,7 +1099,7 @@ class SymOps:
         else:
             x, y = self.real(a), self.real(b)
             if op == "**":
-                return S.SymNum(S.uf("powr", S.REAL, S.REAL, S.REAL)(x.t, y.t))
+                return S.SymNum(S.real_pow(x.t, y.t))
         if op == "+":
             return x + y
         if op == "-":
